@@ -319,6 +319,8 @@ def gated_echo(x, gate):
 def echo_and_mutate_deep(*args, **kwargs):
     """like echo_and_mutate but also mutates nested lists/dicts (depth <= 3)"""
     import copy
+    if args and isinstance(args[0], str) and args[0] == 'POISON':
+        raise ValueError('poison item')
     snap = (copy.deepcopy(args), copy.deepcopy(kwargs))
 
     def mut(a, d):
